@@ -65,7 +65,8 @@ pub fn gen_tower(prop: Prop, rng: &mut Rng, thorough: bool) -> History {
     let mut buggify = 0;
     let cfg = match prop {
         Prop::C02 => {
-            draw.blend = BlendProfile::Destructive;
+            // mostly the modes that would erase the destination, but SrcOver has its own blitters
+            draw.blend = rng.pick(&[BlendProfile::Destructive, BlendProfile::Destructive, BlendProfile::Common, BlendProfile::Uniform]);
             draw.sparse = true;
             draw.kinds = [8, 5, 4, 1, 3, 2, 1];
             SceneCfg {
@@ -73,8 +74,8 @@ pub fn gen_tower(prop: Prop, rng: &mut Rng, thorough: bool) -> History {
                 max_ops: 10,
                 max_clip: 4,
                 max_layer: 2,
-                p_clip: rng.pick(&[0, 80, 200]),
-                p_layer: rng.pick(&[0, 60, 120]),
+                p_clip: rng.pick(&[0, 80, 200, 250]),
+                p_layer: rng.pick(&[0, 60, 120, 200]),
                 p_pop: 100,
                 p_transform: rng.pick(&[0, 60]),
                 p_nop: rng.pick(&[0, 60]),
@@ -84,7 +85,7 @@ pub fn gen_tower(prop: Prop, rng: &mut Rng, thorough: bool) -> History {
                 draw,
                 aligned_clip_paths: false,
                 early_clip_pop: true,
-        layer_blend: BlendProfile::Destructive,
+                layer_blend: rng.pick(&[BlendProfile::Destructive, BlendProfile::Common]),
             }
         }
         Prop::C03 => {
